@@ -297,6 +297,10 @@ pub fn creation_cases(tier: Tier) -> Vec<CreateCase> {
         }
         for id in ids {
             v.push(CreateCase { fee_cfg: k, pre_ids: vec![], pm_holds_fee_denoms: false, op: PuOp::CreatePool { u: A, denoms: s(&["uusd", "uusdc"]), decimals: vec![6, 6], fees: std_fees(), amp: None, id: id.clone(), funds: exact.clone() } });
+            // an identifier with upper-case letters created a second time with exactly the same spelling
+            if k == 0 {
+                v.push(CreateCase { fee_cfg: k, pre_ids: vec!["Whale.Luna".into()], pm_holds_fee_denoms: false, op: PuOp::CreatePool { u: A, denoms: s(&["uusd", "uusdc"]), decimals: vec![6, 6], fees: std_fees(), amp: Some(100), id: Some("Whale.Luna".into()), funds: exact.clone() } });
+            }
             v.push(CreateCase { fee_cfg: k, pre_ids: vec!["a".into(), "1".into()], pm_holds_fee_denoms: false, op: PuOp::CreatePool { u: A, denoms: s(&["uusd", "uusdc"]), decimals: vec![6, 6], fees: std_fees(), amp: None, id, funds: exact.clone() } });
         }
     }
